@@ -135,6 +135,19 @@ pub fn te_alphabet(tier: Tier) -> Vec<Option<TeSpec>> {
             }
         }
     }
+    // the weight parameter name is case-insensitive (ABNF literals are, RFC 5234 2.3)
+    for (text, m) in [
+        ("chunked;Q=0, identity", vec![TeMember { name: "chunked", q: Some("0") }, TeMember { name: "identity", q: None }]),
+        ("identity;Q=0.5, chunked;q=0.9", vec![TeMember { name: "identity", q: Some("0.5") }, TeMember { name: "chunked", q: Some("0.9") }]),
+        ("chunked;q=0.5, identity;Q=0.9", vec![TeMember { name: "chunked", q: Some("0.5") }, TeMember { name: "identity", q: Some("0.9") }]),
+        ("identity; Q=0, chunked", vec![TeMember { name: "identity", q: Some("0") }, TeMember { name: "chunked", q: None }]),
+    ] {
+        v.push(Some(TeSpec {
+            text: text.to_string(),
+            members: Some(m),
+            header_name: "TE",
+        }));
+    }
     // robustness-only class: malformed weights, long lists
     let mut long = Vec::new();
     for i in 0..60 {
@@ -483,7 +496,7 @@ impl Check for C05 {
         vec![
             "ties between chunked and identity at equal q are accepted either way (the statement does not rank them)".into(),
             "malformed q values are judged only for robustness: no panic, exactly one framing, never chunked where forbidden".into(),
-            "declared lengths are correct (the quantifier of C04/C05); `Q=` in upper case is not judged".into(),
+            "declared lengths are correct (the quantifier of C04/C05)".into(),
         ]
     }
     fn replay(&self, replay: &Value, acc: &mut Acc) {
